@@ -32,7 +32,7 @@ CHECKS['C03'] = ('E2', 'model_checking',
     'pre-emption-bounded exhaustive schedule exploration of the real threads under a controlled scheduler (stateless model checking)', 'DESIGN.md 3/E2, 6/C03')
 CHECKS['C08'] = ('E4+E2', 'model_checking',
     'Part 1: every program (chain started->c1..cL, L<=3; stop action in any handler; 9 stop actions: stop() with/without codes, SystemExit with/without codes, KeyboardInterrupt; next link fired before/after the action; one link optionally fired from a generator step; extra events around the action) runs under the real run() twice on the same manager, with stop() on the stopped manager (also with an event queued) in between; per cycle exactly one started/stopped, everything fired is dispatched and no queue residue when run() ends, the code reaches the caller of run(). Part 2 (E2): stop()/stop(3) issued by a second thread, every interleaving with <=k pre-emptions (quick k<=1, one config k<=2; thorough k<=2/3): run() ends, stopped dispatched exactly once, nothing fired is left, code propagates.',
-    'Trusted: as for C03 (line atomicity, doubles); exit code 0 may surface as a normal return; the idle loop is kept awake by a zero-time generate_events handler.',
+    'Trusted: as for C03 (line atomicity, doubles); any exit code other than None must reach the caller of run() as SystemExit(code); every program runs twice: with a driver that asks for zero idle time and with the idle time decided by the library over an idle-wait double.',
     'bounded-exhaustive program enumeration under the real run() + pre-emption-bounded schedule exploration for the threaded stop', 'DESIGN.md 6/C08')
 CHECKS['C07'] = ('E1', 'model_checking',
     'Explicit-state BFS over histories of register / unregister / probe fire / broadcast fire / single ticks of any root on pools of 3-4 real components, started from several initial forests (flat, chain of 2, chain of 3, chain of 4); canonical state = forest + pending flags + per-root queue contents + handler caches. After every operation: parent/child links agree, no cycles, root = top of tree; after a final drain: one registered/unregistered event object per completed operation and never twice to one component, probes queued on a detached component are delivered exactly once after it is registered, no probe is delivered twice, and nothing reaches a component that was not in the firing tree between fire and dispatch (detached subtrees receive nothing further).',
@@ -44,7 +44,7 @@ CHECKS['C09'] = ('E3', 'model_checking',
     'deviation-bounded exhaustive enumeration of environment answers on a virtual clock, real run() and real Timer', 'DESIGN.md 3/E3, 6/C09')
 CHECKS['C10'] = ('E1', 'model_checking',
     'Explicit-state BFS over histories of addReader/addWriter/removeReader/removeWriter/discard and peer actions (write, drain, fill the send buffer, unfill, peer close, discard+close+reopen on the same fd number, close-without-discard + reopen + register, close-without-discard with the number taken by an unrelated descriptor) on 1-2 real AF_UNIX socket pairs; every history is replayed on fresh sockets under Select, Poll and EPoll, two zero-time-out loop iterations after each operation. Judged on every state: an event only for a descriptor registered for that role and ready for it, a ready registered descriptor gets exactly one event per iteration, on the channel of the registering component, nothing ever names a discarded/closed socket object, and the three pollers fire the same event set.',
-    'Trusted: Linux AF_UNIX readiness measured with select/poll by the harness; set model of registrations; events for hung-up descriptors judged only for naming registered live objects.',
+    'Trusted: Linux AF_UNIX readiness measured with select/poll by the harness; set model of registrations; events for hung-up descriptors judged for naming registered live objects, for re-registration, and - while unread data is pending - for staying readable without _disconnect.',
     'explicit-state BFS over operation histories on real sockets, cross-checked between the three poller implementations', 'DESIGN.md 6/C10')
 CHECKS['C11'] = ('E3', 'fault_enumeration',
     'Real TCPServer connection, UNIXClient, TCPClient and File components on a real poller, with the OS write call scripted: every send()/os.write() is a choice point {accept all, 1 byte, n-1 bytes, EAGAIN, EINTR, ENOBUFS, EPIPE, ECONNRESET}; for every program (1-3 write events with payloads of 0/1/3 distinct bytes, close request at any position or none, all events at once or one per loop iteration) every answer script with <=k non-default answers (quick 2, thorough 3; fatal answers sticky) is executed. On every execution: the accepted bytes are always a prefix of the payload concatenation, at quiescence nothing written before the close request (or nothing at all) is missing, close/shutdown happens only after that and only if requested, no write call after close, a fatal answer is signalled by an error/disconnect event.',
@@ -52,7 +52,7 @@ CHECKS['C11'] = ('E3', 'fault_enumeration',
     'deviation-bounded exhaustive fault enumeration of send() outcomes against the real endpoint components', 'DESIGN.md 3/E3, 6/C11')
 CHECKS['C12'] = ('E1', 'model_checking',
     'Explicit-state BFS over histories of peer actions (connect, send 1/5/5124 bytes, shutdown(WR), close, close with unread data) and server-side actions (write, 1 MiB write while the peer does not read, close, and late write/close after the disconnect) on up to two concurrent connections to a real UNIXServer, replayed on fresh sockets under Select, Poll and EPoll with deterministic zero-time-out loop iterations; plus client histories for a real UNIXClient against a harness-driven listener. Judged on every state: per socket the observer stream is connect, read*, disconnect with nothing afterwards; read data equals (or, if the server closed, is a prefix of) what the peer sent; every ended connection gets its disconnect; after the disconnect neither the server (_clients/_buffers/_closeq) nor the poller (_read/_write/_targets/_map) retains the socket; no handler raises; the three pollers show the same streams; one disconnected per connected on the client.',
-    'Trusted: AF_UNIX semantics (synchronous peer effects); TCP RST via SO_LINGER is not in the alphabet; residue clause reads internal tables through getattr.',
+    'Trusted: AF_UNIX semantics (synchronous peer effects) in the main family; in the TCP family (RST via SO_LINGER 0) every kernel effect is awaited explicitly before the loop is stepped; residue clause reads internal tables through getattr.',
     'explicit-state BFS over connection histories on real sockets under three pollers', 'DESIGN.md 6/C12')
 CHECKS['C20'] = ('E4', 'model_checking',
     'Three bounded-exhaustive families on fresh real objects: (auth) every configuration (user tables incl. users with guessable derived passwords, dict/callable tables, realms, methods, encrypt kinds) x every Authorization header of a grammar covering Basic and Digest (users absent from the table, right/wrong/None/empty passwords, realm and method mismatches, qop/nc/cnonce/algorithm variants, every subset of required Digest fields missing, bad base64, no space, unknown scheme) through check_auth, basic_auth and digest_auth, judged by a three-valued reference verifier built on an independent RFC 2617 implementation; (sess) every sequence of 2-3 requests over 8 clients x 9 cookie kinds through a real Sessions component with scripted uuid4, judged by a reference store keyed by (sid, client); (vhost) every trusted-gateway list x remote address x X-Forwarded-Host x Host x path through a real VirtualHosts, differential oracle.',
